@@ -315,6 +315,10 @@ func (x *Exec) evalIdent(env *Env, name string) Val {
 	if t, ok := env.st.ghost["ghost!"+name]; ok {
 		return mathVal(t)
 	}
+	if gs, ok := x.E.ghostDecls[name]; ok {
+		// a declared ghost variable that has not been assigned yet: its initial value
+		return mathVal(Var("ghost0."+name, gs))
+	}
 	if v, ok := x.pkgObject(env, env.pkgPath, name); ok {
 		return v
 	}
